@@ -741,8 +741,15 @@ class Interp:
                 enter = self.ctx.branch(done.z != it.z, f"for@{s.lineno}")
                 if enter:
                     self.ctx.assume(z3.And(it.z[k], z3.Not(done.z[k])))
-                    self.assign(s.target, from_z3(k, it.elem), fr)
-                    fr.locals["_cur"] = from_z3(k, it.elem)
+                    mp_ = getattr(it, "items_of", None)
+                    if mp_ is not None:     # for k, v in d.items(): an arbitrary unvisited key with its value
+                        elem = VTuple([from_z3(k, mp_.kt), from_z3(z3.Select(mp_.val, k), mp_.vt)])
+                        self.assign(s.target, elem, fr)
+                        fr.locals["_cur"] = elem
+                        fr.locals["_curkey"] = from_z3(k, it.elem)
+                    else:
+                        self.assign(s.target, from_z3(k, it.elem), fr)
+                        fr.locals["_cur"] = from_z3(k, it.elem)
             else:
                 raise OutOfSubset(f"for over {it!r}")
         if enter:
@@ -760,7 +767,7 @@ class Interp:
             if it is not None:
                 fr.locals[idxname] = VInt(fr.locals[idxname].z + 1)
                 if isinstance(it, VSet):
-                    cur = fr.locals["_cur"]
+                    cur = fr.locals.get("_curkey", fr.locals["_cur"]) if getattr(it, "items_of", None) is not None else fr.locals["_cur"]
                     d = fr.locals["_done"]
                     fr.locals["_done"] = VSet(z3.Store(d.z, to_z3(cur, it.elem), True), it.elem)
             for upd_name, upd in spec.get("ghost_update", {}).items():
